@@ -66,6 +66,26 @@ Theorem C12_front_ids_resolve : forall v o, front v = Ok o ->
   Forall (fun kv : str * func => func_res K (snd kv)) (fl_functions (o_flatd o)) /\
   Forall (fun kv : str * enum_ => enum_res K (snd kv)) (fl_enums (o_flatd o)).
 Proof. exact front_ids_resolve. Qed.
+(* ... and on the lists the JSON writer prints (Model/Json.v: api_json): every id listed inside a module, class, function or enum
+   entry is the "id" of an entry of the top-level list of its kind *)
+Theorem C12_json_ids_resolve : forall v o, front v = Ok o ->
+  let a := o_api o in let f := o_flatd o in
+  let CI := map c_id (sorted_values c_id (api_classes a)) in
+  let FI := map f_id (sorted_values f_id (fl_functions f)) in
+  let RI := map r_id (sorted_values r_id (fl_results f)) in
+  let PI := map p_id (sorted_values p_id (fl_params f)) in
+  let AI := map a_id (sorted_values a_id (fl_attrs f)) in
+  let EI := map e_id (sorted_values e_id (fl_enums f)) in
+  let II := map fst (sort_by_key fst (fl_enum_insts f)) in
+  (forall m, In m (sort_by_key m_id (api_modules a)) ->
+     incl (map c_id (m_classes m)) CI /\ incl (map f_id (m_functions m)) FI /\ incl (map e_id (m_enums m)) EI) /\
+  (forall c, In c (sorted_values c_id (api_classes a)) ->
+     incl (map f_id (c_methods c)) FI /\ (match c_ctor c with Some k => In (f_id k) FI | None => True end) /\
+     incl (map a_id (c_attrs c)) AI /\ incl (map c_id (c_classes c)) CI) /\
+  (forall fn, In fn (sorted_values f_id (fl_functions f)) ->
+     incl (map r_id (f_results fn)) RI /\ incl (map p_id (f_params fn)) PI) /\
+  (forall e, In e (sorted_values e_id (fl_enums f)) -> incl (map fst (e_instances e)) II).
+Proof. exact json_ids_resolve. Qed.
 Print Assumptions C12_lists_sorted_nodup.
 Print Assumptions C12_lists_complete.
 Print Assumptions C12_id_form.
@@ -74,3 +94,4 @@ Print Assumptions C12_front_single_owner.
 Print Assumptions C12_front_class_ids.
 Print Assumptions C12_json_lists_sorted.
 Print Assumptions C12_front_ids_resolve.
+Print Assumptions C12_json_ids_resolve.
